@@ -151,7 +151,7 @@ var regOnce sync.Once
 
 func main() {
 	run := hx.Start("C01", "Aurora.C01.Corr",
-		"real builder pipeline + real joiner: content sizes 0, 1, 31..33, around 4 KiB, 256 KiB +-1, multiples of 256 KiB +-1 up to 40 chunks (100 thorough), random; write splits: one write, tiny, around the chunk size, several chunks at once, with empty writes, through FeedPipeline; stores: copying map, storage/mock, localstore; lift corpus: plain (8192, 8193, 8193+777 B, 16387 chunks) and encrypted (4096+1 B, 4097, 4097+777 B, 8195 chunks) files of identical chunks built through the real Encryption/BMT/Store/HashTrie stages without the feeder (1-4 GiB, two and three levels), read around every level boundary; reads: Size, JoinReadAll, ReadAt at boundary-dense offsets with cap >= len, Read/Seek sequences; non-trivial = more than one chunk, or at least two writes, or a read with cap > len; distinct by (size, content seed, store, split, ops)")
+		"real builder pipeline + real joiner: content sizes 0, 1, 31..33, around 4 KiB, 256 KiB +-1, multiples of 256 KiB +-1 up to 40 chunks (100 thorough), random; write splits: one write, tiny, around the chunk size, several chunks at once, with empty writes, through FeedPipeline; stores: copying map, storage/mock, localstore; lift corpus: plain (8192, 8193, 8193+777 B, 16387 chunks) and encrypted (4096+1 B, 4097, 4097+777 B, 8195 chunks), plus exact multiples of the branching (2x, 3x) files of identical chunks built through the real Encryption/BMT/Store/HashTrie stages without the feeder (1-4 GiB, two and three levels), read around every level boundary; reads: Size, JoinReadAll, ReadAt at boundary-dense offsets with cap >= len, Read/Seek sequences; non-trivial = more than one chunk, or at least two writes, or a read with cap > len; distinct by (size, content seed, store, split, ops)")
 	r := run.R
 	ctx := context.Background()
 
@@ -624,7 +624,7 @@ func main() {
 		if enc {
 			br = boson.Branches / 2
 		}
-		for _, sh := range []struct{ n, tail int }{{br, 1}, {br + 1, 0}, {br + 1, 777}, {2*br + 3, 0}} {
+		for _, sh := range []struct{ n, tail int }{{br, 1}, {br + 1, 0}, {br + 1, 777}, {2*br + 3, 0}, {2 * br, 0}, {3 * br, 0}} {
 			size := int64(sh.n)*int64(CS) + int64(sh.tail)
 			bd := int64(br) * int64(CS)
 			var ops []jop
